@@ -547,6 +547,27 @@ func runC09(tier string, seed uint64) {
 					emit("c09", "NOMODEL")
 				}
 			}
+			// last requests (they may empty the store): Minio's force-delete of buckets that hold objects, and
+			// afterwards requests that must still be answered
+			if cfg.host != "host" {
+				fds := []string{singleBucketName}
+				if !isSingle(kind) {
+					fds = []string{"bkq", singleBucketName}
+				}
+				for _, fb := range fds {
+					do(s.h, Req{Method: "PUT", Path: "/" + fb + "/force/leaf", Body: []byte("in the way")})
+					for _, rq := range []Req{{Method: "DELETE", Path: "/" + fb, Header: [][2]string{{"x-minio-force-delete", "true"}}},
+						{Method: "GET", Path: "/" + fb}, {Method: "PUT", Path: "/" + fb + "/after-force", Body: []byte("x")}, {Method: "GET", Path: "/"}} {
+						r, hung := doDeadline(s.h, rq, 5*time.Second)
+						desc := rq.Method + " " + rq.Path + " (force-delete sequence)"
+						emit("c09", "R", kind, cfg.name, strconv.Itoa(r.Status), hs(errCode(r.Body)), boolField(r.Panic != ""), boolField(hung), "0",
+							strconv.Itoa(len(r.Body)), boolField(isErrorDoc(r.Body)), hs(desc), hs(fmt.Sprint(rq.Header)), "-", hx(truncate([]byte(r.Panic), 200)))
+						if hung {
+							break
+						}
+					}
+				}
+			}
 			s.end()
 		}
 	}
